@@ -73,7 +73,7 @@ def _sorted(keys):
 def _item_by_key(value, key, keys, i = None):
     if isinstance(value, dict):
         if len(value) == len(keys) and all(k in value for k in keys): # the same key SET (keys are distinct): no ordering of the keys is needed, and 1 / 1.0 are one key as they are for the dict
-            return value[key]
+            return dict.__getitem__(value, key) # not value[key]: dictattr / Dict overload it for tuple / range / callable keys, and key is a key of the mapping here
         else:
             return type(value)({k : _item_by_key(v, key, keys, i) for k, v in value.items()})
     elif isinstance(value, pd.Series) and _sorted(value.index.values) == keys:
@@ -235,7 +235,7 @@ class loops(wrapper):
         axis = kwargs.pop('axis', 0)
         if isinstance(arg, dict) and type(arg) in self.types:
             keys = _sorted(arg.keys())
-            res = {key : self._wrapped(arg[key], tuple(_item_by_key(a,key,keys) for a in args), {k : _item_by_key(v,key,keys) for k,v in kwargs.items()}) for key in arg.keys()}
+            res = {key : self._wrapped(dict.__getitem__(arg, key), tuple(_item_by_key(a,key,keys) for a in args), {k : _item_by_key(v,key,keys) for k,v in kwargs.items()}) for key in arg.keys()} # not arg[key], see _item_by_key
             return type(arg)(res)
         elif isinstance(arg, pd.DataFrame) and pd.DataFrame in self.types:
             if axis in (1,-1):
